@@ -1,9 +1,41 @@
-"""C07 — see harness/pipe_check.py (shared native-pipeline correspondence on the real kernel)"""
+"""C07 — monitoring never silently dies: the native pipeline on the real kernel against WD.Pipe (harness/pipe_check.py:
+histories incl. operations on entries that left the tree, bursts with the reader held off, transient faults), the polling
+emitter when its root becomes unreadable in any way, and API call sequences on the real BaseObserver under the
+deterministic scheduler (no library thread may die of an uncaught exception)."""
+import c10
+import obs_check
 import pipe_check
+
+
+def polling_root_gone(res):
+    """whatever makes the root unreadable (removed, replaced by a file, permissions, I/O error): exactly one
+    DirDeletedEvent(root), the emitter stops, nothing is raised"""
+    base = c10.mk("r", 1, True, children=[c10.mk("a", 2), c10.mk("d", 3, True, children=[c10.mk("b", 4)])])
+    for recursive in (True, False):
+        for err in c10.ERRNO:
+            gone = c10.Node("r", err, [])
+            line = c10.run_case([base, gone], recursive)
+            res.count()
+            res.bump("polling_root_unreadable")
+            res.nontrivial(("polling-root", recursive, err))
+            if "ROOTGONE" not in line or "RAISED" in line:
+                res.violation(f"polling emitter, root stat fails with {err}: expected one DirDeletedEvent(root) and a clean stop, "
+                              f"got: {line}", {"root_stat_error": err, "recursive": recursive, "trace": line},
+                              signature="c07-polling-root")
+                return
+        # the root is really gone (no entry at all)
+        line = c10.run_case([base, c10.mk("other", 9, True)], recursive)
+        res.count()
+        if "ROOTGONE" not in line or "RAISED" in line:
+            res.violation(f"polling emitter, root removed: expected one DirDeletedEvent(root) and a clean stop, got: {line}",
+                          {"recursive": recursive, "trace": line}, signature="c07-polling-root")
+            return
 
 
 def run(res, tier, lean, proof_breaks=(), build_log=""):
     pipe_check.run(res, tier, lean, prop="C07", proof_breaks=proof_breaks, build_log=build_log)
+    polling_root_gone(res)
+    obs_check.run(res, tier, lean, prop="C07", proof_breaks=proof_breaks, build_log=build_log)
 
 
 def replay(res, path, lean):
